@@ -29,6 +29,15 @@ ToData(d) == [c2s |-> d.c2s, s2c |-> d.s2c, server |-> d.server, port |-> d.port
               algo |-> d.algo, pool |-> d.pool]
 ToDest(d) == [sent |-> d.sent, server |-> d.server, port |-> d.port]
 
+\* ghost rule for "one cookie is handed out": the statement does not say which
+\* one, so the cookie taken is the one the recorded pool is missing (NtsKe
+\* itself takes the oldest); if the recorded pool is not "all but one" the ghost
+\* follows NtsKe and PoolIsIssued objects.
+DropAt(s, i) == SubSeq(s, 1, i - 1) \o SubSeq(s, i + 1, Len(s))
+Consume(g, post) ==
+  LET c == {i \in DOMAIN g : SameCookies(DropAt(g, i), post)}
+  IN IF c # {} THEN DropAt(g, CHOOSE i \in c : TRUE) ELSE Tail(g)
+
 TInit == Init /\ l = 0 /\ p = 0
 
 \* a fresh Fetcher for another history (all variables have their initial values when p = 0)
@@ -55,8 +64,8 @@ Step ==
               \* ghosts, by the same rules as in NtsKe
               /\ good' = IF ex THEN e.ok ELSE good
               /\ gpool' = IF ex /\ e.ok
-                          THEN (IF v.nck > 0 THEN Tail(Issued(e.sess, v.nck)) ELSE << >>)
-                          ELSE IF ~ex /\ e.ok /\ good /\ gpool # << >> THEN Tail(gpool)
+                          THEN (IF v.nck > 0 THEN Consume(Issued(e.sess, v.nck), e.post.pool) ELSE << >>)
+                          ELSE IF ~ex /\ e.ok /\ good /\ gpool # << >> THEN Consume(gpool, e.post.pool)
                           ELSE gpool
      \/ /\ e.ev = "store"
         /\ data' = ToData(e.post)
